@@ -709,7 +709,7 @@ func (cd *cmdDispatcher) cmdList(aclcat, pattern string) (output respValue) {
 	a := []any{}
 	pat := []rune(pattern)
 
-	for name := range cd.active {
+	for _, name := range simKeys(cd.active, func(a, b string) bool { return a < b }) {
 		info := cd.infoTable.table[name]
 		if aclcat != "" {
 			found := false
